@@ -111,6 +111,74 @@ func (t *T) m9(x int) int {
 	return x*7 + 1009
 }
 
+// ---- function literals held in package variables (runtime names <pkg>.glob..func<N> / <pkg>.init.func<N> / makeHook.func1):
+// their bodies call other corpus functions, and one is a closure that captures a variable
+
+// H10 is a plain func literal.
+var H10 = func(x int) int {
+	if x > 1<<44 {
+		return N0(x) + helper(x, 1)
+	}
+	return x*7 + 1010
+}
+
+func makeHook(c int) func(int) int {
+	return func(x int) int {
+		if x > 1<<45 {
+			return N1(x+c) + helper(x, c)
+		}
+		return x*7 + 1000 + c
+	}
+}
+
+// H11 is a closure capturing c = 11.
+var H11 = makeHook(11)
+
+// ---- a method family whose names end in the letters of the method-value suffix "-fm": Add / Addf / Addm / Addfm / Addmf
+
+// L is the receiver of the method family.
+type L struct{ N int }
+
+//go:noinline
+func (l *L) Add(x int) int {
+	if x > 1<<46 {
+		return helper(x, l.N) + helper(x+20, x+21)
+	}
+	return x*7 + 1012
+}
+
+//go:noinline
+func (l *L) Addf(x int) int {
+	if x > 1<<47 {
+		return helper(x, l.N) + helper(x+22, x+23)
+	}
+	return x*7 + 1013
+}
+
+//go:noinline
+func (l *L) Addm(x int) int {
+	if x > 1<<48 {
+		return helper(x, l.N) + helper(x+24, x+25)
+	}
+	return x*7 + 1014
+}
+
+//go:noinline
+func (l *L) Addfm(x int) int {
+	if x > 1<<49 {
+		return helper(x, l.N) + helper(x+26, x+27)
+	}
+	return x*7 + 1015
+}
+
+//go:noinline
+func (l *L) Addmf(x int) int {
+	if x > 1<<50 {
+		return helper(x, l.N) + helper(x+28, x+29)
+	}
+	return x*7 + 1016
+}
+
 // ---- callbacks: class cb<k> returns 100000+k
 
 func K0(x int) int { return 100000 }
@@ -122,6 +190,11 @@ func KM0(t *T, x int) int { return 100000 }
 func KM1(t *T, x int) int { return 100001 }
 func KM2(t *T, x int) int { return 100002 }
 func KM3(t *T, x int) int { return 100003 }
+
+func KL0(l *L, x int) int { return 100000 }
+func KL1(l *L, x int) int { return 100001 }
+func KL2(l *L, x int) int { return 100002 }
+func KL3(l *L, x int) int { return 100003 }
 
 // ---- origin placeholders (bodies are overwritten by goom with the relocated original)
 
